@@ -16,18 +16,30 @@
    Two switches select the code variant that is modelled:
      v_unlock_on_hit : Future.Client unlocks mu when the proxy already exists
                        (false = answer.go as found: F11)
-     v_late_fulfil   : resolve moves to the resolved state first and fulfils the proxy clients
-                       afterwards (false = answer.go as found: proxies are fulfilled in the
-                       pending-resolution state, which can deadlock: F11b)
+     v_late_fulfil   : resolve fulfils the proxy clients after the point from which pipelined
+                       calls are made on the result (false = answer.go as found: proxies are
+                       fulfilled while such calls still wait, which can deadlock: F11b)
+     v_known_first   : (with v_late_fulfil) that point is the internal pendingDone channel and the
+                       resolution is signalled (signals closed) only after the proxies are
+                       fulfilled; false = the signals are closed at that point already (the
+                       withdrawn repair, which reads the result after Done)
+   [sig_open] is "pipelined calls still wait" (pendingDone / resolved not closed for them),
+   [done_open] is the external signal (p.resolved, Done()).  The owner of the result may release
+   it any time after Done (operation OConsume clears [res_alive]); resolve reading the result
+   after that is a Panic outcome.
    No proofs in this file. *)
 From Coq Require Export List ZArith Bool Lia.
 Export ListNotations.
 Open Scope Z_scope.
 
-Record variant := { v_unlock_on_hit : bool; v_late_fulfil : bool }.
-Definition as_found : variant := {| v_unlock_on_hit := false; v_late_fulfil := false |}.
-Definition f11_fixed : variant := {| v_unlock_on_hit := true; v_late_fulfil := false |}.
-Definition fixed : variant := {| v_unlock_on_hit := true; v_late_fulfil := true |}.
+Record variant := { v_unlock_on_hit : bool; v_late_fulfil : bool; v_known_first : bool }.
+Definition as_found : variant := {| v_unlock_on_hit := false; v_late_fulfil := false; v_known_first := false |}.
+Definition f11_fixed : variant := {| v_unlock_on_hit := true; v_late_fulfil := false; v_known_first := false |}.
+(* the withdrawn repair (repo 5d7e7b2): signals closed first, proxies fulfilled afterwards; it reads
+   the result after the resolution is signalled (result_lifetime_refuted) *)
+Definition late_fixed : variant := {| v_unlock_on_hit := true; v_late_fulfil := true; v_known_first := false |}.
+(* the code as it is now: "result known" (pendingDone) first, then the proxies, then the signals *)
+Definition fixed : variant := {| v_unlock_on_hit := true; v_late_fulfil := true; v_known_first := true |}.
 
 (* ---------------------------------------------------------------- data *)
 
@@ -86,7 +98,8 @@ Inductive op :=
 | OCall (slot : Z) (gated : bool)      (* Client.SendCall / RecvCall on the client in slot *)
 | ORelease                             (* ReleaseClients *)
 | OWait                                (* Future.Struct / <-Done() *)
-| OUngate (n : nat).                   (* the application lets call n leave the PipelineCaller *)
+| OUngate (n : nat)                    (* the application lets call n leave the PipelineCaller *)
+| OConsume.                            (* the owner of the result waits for Done and releases the result message *)
 
 Inductive pc :=
 | PStart
@@ -99,12 +112,14 @@ Inductive pc :=
 | PFul (rest : list nat)    (* resolve: next ClientPromise.Fulfill *)
 | PFulWait (x : nat) (rest : list nat)   (* ClientPromise.Fulfill: <-cp.h.done *)
 | PStopWait                 (* resolve: <-p.callsStopped *)
-| PCommit                   (* resolve: Lock, move to the resolved state *)
+| PCommit                   (* resolve: Lock, result known / move to the resolved state *)
+| PClose                    (* resolve: Lock, close the signals (after the proxies are fulfilled) *)
 | PRel (rest : list nat)    (* ReleaseClients: next Client.Release *)
 | PRelWait (x : nat) (rest : list nat)   (* Client.Release: <-h.done *)
 | PDone.
 
-Inductive outcome := ONone | ORet | OPanic | OHandle (h : handle) | ONoSlot | OStruct (ok : bool).
+(* ONoop: a ReleaseClients call that found the clients already released (or other references left) *)
+Inductive outcome := ONone | ORet | ONoop | OPanic | OHandle (h : handle) | ONoSlot | OStruct (ok : bool).
 
 Record thread := {
   t_op : op;
@@ -116,7 +131,7 @@ Record thread := {
 
 Inductive event :=
 | EBegin (t : nat)                 (* Fulfill/Reject passed the isUnresolved check: caller := nil *)
-| EResolved (t : nat)              (* signals closed *)
+| EResolved (t : nat)              (* result set; pipelined calls are made on it from here *)
 | EDeliver (t : nat) (d : dest).   (* call of thread t delivered to / failed with d *)
 
 Record config := {
@@ -133,7 +148,9 @@ Record config := {
   threads : list thread;
   slots : list (Z * handle);
   gates : list nat;                  (* calls the application has let go *)
-  events : list event                (* newest first *)
+  events : list event;               (* newest first *)
+  done_open : bool;                  (* p.resolved (Done) not closed *)
+  res_alive : bool                   (* the result message has not been released by its owner *)
 }.
 
 (* ---------------------------------------------------------------- helpers *)
@@ -200,50 +217,56 @@ Definition set_thread (c : config) (t : nat) (th : thread) : config :=
   {| mu := mu c; caller := caller c; sig_open := sig_open c; ongoing := ongoing c; stopped := stopped c;
      clients := clients c; crefs := crefs c; relflag := relflag c; result := result c;
      proxies := proxies c; threads := upd t th (threads c); slots := slots c; gates := gates c;
-     events := events c |}.
+     events := events c; done_open := done_open c; res_alive := res_alive c |}.
 
 Definition set_px (c : config) (x : nat) (p : proxy) : config :=
   {| mu := mu c; caller := caller c; sig_open := sig_open c; ongoing := ongoing c; stopped := stopped c;
      clients := clients c; crefs := crefs c; relflag := relflag c; result := result c;
      proxies := upd x p (proxies c); threads := threads c; slots := slots c; gates := gates c;
-     events := events c |}.
+     events := events c; done_open := done_open c; res_alive := res_alive c |}.
 
 Definition log (c : config) (e : event) : config :=
   {| mu := mu c; caller := caller c; sig_open := sig_open c; ongoing := ongoing c; stopped := stopped c;
      clients := clients c; crefs := crefs c; relflag := relflag c; result := result c;
      proxies := proxies c; threads := threads c; slots := slots c; gates := gates c;
-     events := e :: events c |}.
+     events := e :: events c; done_open := done_open c; res_alive := res_alive c |}.
 
 Definition set_slot (c : config) (s : Z) (h : handle) : config :=
   {| mu := mu c; caller := caller c; sig_open := sig_open c; ongoing := ongoing c; stopped := stopped c;
      clients := clients c; crefs := crefs c; relflag := relflag c; result := result c;
      proxies := proxies c; threads := threads c; slots := (s, h) :: slots c; gates := gates c;
-     events := events c |}.
+     events := events c; done_open := done_open c; res_alive := res_alive c |}.
 
 Definition set_mu (c : config) (m : option nat) : config :=
   {| mu := m; caller := caller c; sig_open := sig_open c; ongoing := ongoing c; stopped := stopped c;
      clients := clients c; crefs := crefs c; relflag := relflag c; result := result c;
      proxies := proxies c; threads := threads c; slots := slots c; gates := gates c;
-     events := events c |}.
+     events := events c; done_open := done_open c; res_alive := res_alive c |}.
 
 (* promise fields written by the sections *)
 Definition set_core (c : config) (cal sg : bool) (og : Z) (st : chan) (rs : option resolution) : config :=
   {| mu := mu c; caller := cal; sig_open := sg; ongoing := og; stopped := st;
      clients := clients c; crefs := crefs c; relflag := relflag c; result := rs;
      proxies := proxies c; threads := threads c; slots := slots c; gates := gates c;
-     events := events c |}.
+     events := events c; done_open := done_open c; res_alive := res_alive c |}.
 
 Definition set_table (c : config) (cl : list (path * nat)) (rf : Z) (fl : bool) (pxs : list proxy) : config :=
   {| mu := mu c; caller := caller c; sig_open := sig_open c; ongoing := ongoing c; stopped := stopped c;
      clients := cl; crefs := rf; relflag := fl; result := result c;
      proxies := pxs; threads := threads c; slots := slots c; gates := gates c;
-     events := events c |}.
+     events := events c; done_open := done_open c; res_alive := res_alive c |}.
+
+Definition set_done (c : config) (d a : bool) : config :=
+  {| mu := mu c; caller := caller c; sig_open := sig_open c; ongoing := ongoing c; stopped := stopped c;
+     clients := clients c; crefs := crefs c; relflag := relflag c; result := result c;
+     proxies := proxies c; threads := threads c; slots := slots c; gates := gates c;
+     events := events c; done_open := d; res_alive := a |}.
 
 Definition add_gate (c : config) (n : nat) : config :=
   {| mu := mu c; caller := caller c; sig_open := sig_open c; ongoing := ongoing c; stopped := stopped c;
      clients := clients c; crefs := crefs c; relflag := relflag c; result := result c;
      proxies := proxies c; threads := threads c; slots := slots c; gates := n :: gates c;
-     events := events c |}.
+     events := events c; done_open := done_open c; res_alive := res_alive c |}.
 
 Definition goto (th : thread) (p : pc) : thread :=
   {| t_op := t_op th; t_pc := p; t_path := t_path th; t_via := t_via th; t_out := t_out th |}.
@@ -263,9 +286,16 @@ Definition call_done (th : thread) : thread :=
 
 Definition mu_free (c : config) : bool := match mu c with None => true | Some _ => false end.
 
-(* the "move p into resolved state" block of resolve *)
-Definition commit (c : config) (t : nat) (r : resolution) : config :=
+(* result and err are set and pipelined calls are made on them from here on *)
+Definition commit_k (c : config) (t : nat) (r : resolution) : config :=
   log (set_core c false false (ongoing c) CNil (Some r)) (EResolved t).
+
+(* the signals are closed: Done() / p.resolved *)
+Definition close_done (c : config) (t : nat) : config := set_done c false (res_alive c).
+
+(* the "move p into resolved state" block of resolve; with v_known_first only its first half *)
+Definition commit (v : variant) (c : config) (t : nat) (r : resolution) : config :=
+  if v_known_first v then commit_k c t r else close_done (commit_k c t r) t.
 
 (* ---------------------------------------------------------------- sections *)
 
@@ -281,17 +311,17 @@ Definition sec_resolve_start (v : variant) (c : config) (t : nat) (th : thread) 
       if 0 <? ongoing c then
         Some (set_thread (set_core c1 false (sig_open c) (ongoing c) COpen (result c)) t (goto th PStopWait))
       else
-        let c2 := commit c1 t r in
         match order with
-        | [] => Some (set_thread c2 t (finish th ORet))
-        | _ => Some (set_thread c2 t (goto th (PFul order)))
+        | [] => (* not pending at all: result, signals, done in one section *)
+          Some (set_thread (close_done (commit_k c1 t r) t) t (finish th ORet))
+        | _ => Some (set_thread (commit v c1 t r) t (goto th (PFul order)))
         end
     else
       match order with
       | [] =>
         if 0 <? ongoing c then
           Some (set_thread (set_core c1 false (sig_open c) (ongoing c) COpen (result c)) t (goto th (PFul [])))
-        else Some (set_thread (commit c1 t r) t (finish th ORet))
+        else Some (set_thread (commit v c1 t r) t (finish th ORet))
       | _ =>
         let st := if 0 <? ongoing c then COpen else stopped c in
         Some (set_thread (set_core c1 false (sig_open c) (ongoing c) st (result c)) t (goto th (PFul order)))
@@ -301,12 +331,15 @@ Definition sec_resolve_start (v : variant) (c : config) (t : nat) (th : thread) 
 Definition sec_fulfil_proxy (v : variant) (c : config) (t : nat) (th : thread) (rest : list nat) : option config :=
   match rest with
   | [] =>
-    if v_late_fulfil v then Some (set_thread c t (finish th ORet))
+    if v_late_fulfil v then
+      (if v_known_first v then Some (set_thread c t (goto th PClose)) else Some (set_thread c t (finish th ORet)))
     else match stopped c with
          | CNil => Some (set_thread c t (goto th PCommit))
          | _ => Some (set_thread c t (goto th PStopWait))
          end
   | x :: rest' =>
+    (* res.client(t) reads the result: it must not have been released by its owner *)
+    if negb (res_alive c) then Some (set_thread c t (finish th OPanic)) else
     let p := get_px c x in
     let d := res_dest (op_res (t_op th)) (px_path p) in
     let refs := px_refs p in
@@ -324,13 +357,18 @@ Definition sec_fulfil_proxy (v : variant) (c : config) (t : nat) (th : thread) (
 
 Definition sec_commit (v : variant) (c : config) (t : nat) (th : thread) : option config :=
   if negb (mu_free c) then None else
-  let c2 := commit c t (op_res (t_op th)) in
+  let c2 := commit v c t (op_res (t_op th)) in
   if v_late_fulfil v then
     match iter_order (op_ord (t_op th)) (clients c) with
-    | [] => Some (set_thread c2 t (finish th ORet))
+    | [] => if v_known_first v then Some (set_thread c2 t (goto th PClose))
+            else Some (set_thread c2 t (finish th ORet))
     | order => Some (set_thread c2 t (goto th (PFul order)))
     end
   else Some (set_thread c2 t (finish th ORet)).
+
+(* resolve's last section in the code as it is now: Lock, close the signals *)
+Definition sec_close (c : config) (t : nat) (th : thread) : option config :=
+  if negb (mu_free c) then None else Some (set_thread (close_done c t) t (finish th ORet)).
 
 (* PipelineSend / PipelineRecv after the (trivial, single promise) traversal *)
 Definition sec_call_lock (c : config) (t : nat) (th : thread) : option config :=
@@ -372,10 +410,10 @@ Definition sec_after_res (c : config) (t : nat) (th : thread) : option config :=
   | OWait =>
     Some (set_thread c t (finish th (OStruct (match cur_res c with RRej => false | _ => true end))))
   | ORelease =>
-    if relflag c then Some (set_thread c t (finish th ORet))
+    if relflag c then Some (set_thread c t (finish th ONoop))
     else
       let rf := crefs c - 1 in
-      if 0 <? rf then Some (set_thread (set_table c (clients c) rf true (proxies c)) t (finish th ORet))
+      if 0 <? rf then Some (set_thread (set_table c (clients c) rf true (proxies c)) t (finish th ONoop))
       else Some (set_thread (set_table c [] rf true (proxies c)) t (goto th (PRel (map snd (clients c)))))
   | _ => None
   end.
@@ -397,7 +435,7 @@ Definition sec_client (v : variant) (c : config) (t : nat) (th : thread) (p : pa
       Some (set_thread (set_slot (set_table c (clients c ++ [(p, x)]) (crefs c) (relflag c) (proxies c ++ [np])) s h)
                        t (finish th (OHandle h)))
     end
-  else if sig_open c then Some (set_thread c t (goto th PWaitRes))
+  else if done_open c then Some (set_thread c t (goto th PWaitRes))   (* <-p.resolved *)
   else
     let h := HDirect (res_dest (cur_res c) p) in
     Some (set_thread (set_slot c s h) t (finish th (OHandle h))).
@@ -457,20 +495,26 @@ Definition step_thread (v : variant) (c : config) (t : nat) (th : thread) : opti
     | OSend p _ => Some (set_thread c t (enter_call th p None))
     | OClient p s => sec_client v c t th p s
     | OCall s _ => sec_call_start c t th s
-    | ORelease | OWait => if sig_open c then None else Some (set_thread c t (goto th PAfterRes))
+    | ORelease | OWait => if done_open c then None else Some (set_thread c t (goto th PAfterRes))
     | OUngate n => Some (set_thread (add_gate c n) t (finish th ORet))
+    | OConsume => if done_open c then None
+                  else Some (set_thread (set_done c (done_open c) false) t (finish th ORet))
     end
   | PCallLock => sec_call_lock c t th
   | PInCaller =>
     if negb (op_gated (t_op th)) || mem_nat t (gates c) then Some (set_thread c t (goto th PCallRelock)) else None
   | PCallRelock => sec_call_relock c t th
-  | PWaitRes => if sig_open c then None else Some (set_thread c t (goto th PAfterRes))
+  | PWaitRes =>
+    (* Future.Client waits for p.resolved, a pipelined call for pendingDone *)
+    if (match t_op th with OClient _ _ => done_open c | _ => sig_open c end) then None
+    else Some (set_thread c t (goto th PAfterRes))
   | PAfterRes => sec_after_res c t th
   | PCallFinish => sec_call_finish c t th
   | PFul rest => sec_fulfil_proxy v c t th rest
   | PFulWait x rest => if px_done (get_px c x) then Some (set_thread c t (goto th (PFul rest))) else None
   | PStopWait => match stopped c with CClosed => Some (set_thread c t (goto th PCommit)) | _ => None end
   | PCommit => sec_commit v c t th
+  | PClose => sec_close c t th
   | PRel rest => sec_release_proxy c t th rest
   | PRelWait x rest => if px_done (get_px c x) then Some (set_thread c t (goto th (PRel rest))) else None
   end.
@@ -488,7 +532,7 @@ Definition mk_thread (o : op) : thread :=
 Definition init (ops : list op) : config :=
   {| mu := None; caller := true; sig_open := true; ongoing := 0; stopped := CNil; clients := [];
      crefs := 1; relflag := false; result := None; proxies := []; threads := map mk_thread ops;
-     slots := []; gates := []; events := [] |}.
+     slots := []; gates := []; events := []; done_open := true; res_alive := true |}.
 
 (* reachability under any schedule *)
 Inductive reach (v : variant) (ops : list op) : config -> Prop :=
@@ -516,7 +560,7 @@ Definition wants_mu (c : config) (t : nat) : bool :=
   match nth_error (threads c) t with
   | Some th =>
     match t_pc th with
-    | PCallLock | PCallRelock | PAfterRes | PCommit => true
+    | PCallLock | PCallRelock | PAfterRes | PCommit | PClose => true
     | PStart => match t_op th with OFulfill _ _ | OReject _ | OClient _ _ => true | _ => false end
     | _ => false
     end
